@@ -53,7 +53,11 @@ func c16Gen(rng *rand.Rand, conf string, idx int) any {
 			s.CutDir, s.CutOff = rng.Intn(2), rng.Intn(c16GridOffsets)
 		}
 		w.Sessions = append(w.Sessions, s)
-		w.Ops = append(w.Ops, C16Op{"start"})
+		if rng.Intn(4) == 0 {
+			w.Ops = append(w.Ops, C16Op{"run"}) // Run() in a task of its own: it returns when the session has ended
+		} else {
+			w.Ops = append(w.Ops, C16Op{"start"})
+		}
 		if rng.Intn(3) == 0 {
 			w.Ops = append(w.Ops, C16Op{"settle"})
 		}
@@ -109,6 +113,8 @@ func (p *c16Plugin) Configure(ctx context.Context, config, runtime, version stri
 	}
 	return 0, nil
 }
+func (p *c16Plugin) cfgCount() int { p.mu.Lock(); defer p.mu.Unlock(); return p.cfg }
+
 func (p *c16Plugin) Synchronize(ctx context.Context, pods []*api.PodSandbox, ctrs []*api.Container) ([]*api.ContainerUpdate, error) {
 	p.mu.Lock()
 	p.synced++
@@ -228,8 +234,10 @@ func c16Exec(t *testing.T, w *C16W, sc SchedCfg, ph *c16Phases, rec *c16Phases) 
 		}
 		e.OnTeardown(func() { st.Stop() })
 		results := make([]*c16OpRes, len(w.Ops))
+		var runs []*c16OpRes
 		started := false // our belief: the last Start returned nil and no stop/loss since
 		startedSessions := 0
+		maybeSessions := 0 // sessions started through Run(): established or not cannot be told apart
 		reqN := 0
 		curEnd := func() *RTEnd {
 			h.mu.Lock()
@@ -272,6 +280,32 @@ func c16Exec(t *testing.T, w *C16W, sc SchedCfg, ph *c16Phases, rec *c16Phases) 
 					if r.Err == nil {
 						started = true
 						startedSessions++
+					}
+				case "run":
+					// Run = Start + wait for the end of the session; issued from a task of its own, the
+					// caller continues once Run has either failed or got the stub started
+					rr := &c16OpRes{Op: "run-returns"}
+					runs = append(runs, rr)
+					cfg0 := plug.cfgCount()
+					e.Task(fmt.Sprintf("run-%d", i), func() {
+						rr.Err = st.Run(context.Background())
+						rr.Done = true
+					})
+					e.S.ParkOwned(fmt.Sprintf("run-progress:%d", i), "caller", func() bool { return rr.Done || plug.cfgCount() > cfg0 })
+					e.S.Settle("caller")
+					r.CfgAfter = plug.cfgCount()
+					if r.CfgAfter > cfg0 {
+						// the plugin got configured: the Start inside Run got (at least) that far; whether it
+						// returned nil cannot be observed from outside (Run only returns when the session ends,
+						// with whatever the server loop returned), so the session counts as "maybe established"
+						started = !rr.Done
+						maybeSessions++
+						r.Err = nil
+					} else {
+						r.Err = rr.Err
+						if rr.Done && rr.Err == nil {
+							r.Err = fmt.Errorf("Run returned nil although the plugin was never configured")
+						}
 					}
 				case "stop":
 					st.Stop()
@@ -329,6 +363,9 @@ func c16Exec(t *testing.T, w *C16W, sc SchedCfg, ph *c16Phases, rec *c16Phases) 
 		}
 		// ---- oracles
 		sessKind := func(n int) (string, string) {
+			if n < 0 {
+				return "none", "no earlier session"
+			}
 			if n < len(w.Sessions) {
 				s := w.Sessions[n]
 				switch s.Kind {
@@ -347,12 +384,18 @@ func c16Exec(t *testing.T, w *C16W, sc SchedCfg, ph *c16Phases, rec *c16Phases) 
 				return
 			}
 		}
+		for _, rr := range runs {
+			if !rr.Done {
+				res.Violate("C16.run-returns", "a Run() call had not returned although its session was stopped or lost and everything else had drained; ops %v", opNames(w.Ops))
+				return
+			}
+		}
 		lastStart := -1
 		for i, r := range results {
 			if r == nil {
 				break
 			}
-			if r.Op == "start" {
+			if r.Op == "start" || r.Op == "run" {
 				lastStart = i
 			}
 			if !r.Done {
@@ -377,10 +420,10 @@ func c16Exec(t *testing.T, w *C16W, sc SchedCfg, ph *c16Phases, rec *c16Phases) 
 			}
 			kind, label := sessKind(r.Session)
 			switch r.Op {
-			case "start":
+			case "start", "run":
 				prev := 0
 				for j := i - 1; j >= 0; j-- {
-					if results[j].Op == "start" {
+					if results[j].Op == "start" || results[j].Op == "run" {
 						prev = results[j].CfgAfter
 						break
 					}
@@ -409,6 +452,7 @@ func c16Exec(t *testing.T, w *C16W, sc SchedCfg, ph *c16Phases, rec *c16Phases) 
 		}
 		// close notifications: once per established session, 0 or 1 for the others
 		never := h.Dials - startedSessions
+		_ = maybeSessions
 		if closes < startedSessions || closes > startedSessions+never {
 			res.Violate("C16.onclose-count", "%d session(s) were established and ended, %d more connection(s) never got that far, but the close notification fired %d times; ops %v", startedSessions, never, closes, opNames(w.Ops))
 		}
